@@ -19,8 +19,15 @@ vars == <<reg, loaded, hist>>
 Types == {"str", "arr", "int", "float", "bool"}
 TypeName(t) == CASE t = "str" -> "STRING" [] t = "arr" -> "ARRAY" [] t = "int" -> "INTEGER" [] t = "float" -> "FLOAT" [] t = "bool" -> "BOOLEAN"
 Builtin(t) == CASE t = "str" -> "upper" [] t = "arr" -> "len" [] t = "int" -> "abs" [] t = "float" -> "floor" [] t = "bool" -> "binary"
-\* what the built-in prints on the receiver literal the harness uses ("ab", [1, 2], -3, 2.5, true)
-BuiltinOut(t) == CASE t = "str" -> "AB" [] t = "arr" -> "2" [] t = "int" -> "3" [] t = "float" -> "2" [] t = "bool" -> "1"
+\* which of the names used here are built-ins of which receiver type (evaluator/func.go), and what they print on the
+\* receiver the harness uses ("ab", [1, 2], -3, 2.5, true)
+IsBuiltin(t, n) == \/ (n = "upper" /\ t = "str") \/ (n = "len" /\ t \in {"str", "arr", "int"})
+                   \/ (n = "abs" /\ t \in {"int", "float"}) \/ (n = "floor" /\ t = "float") \/ (n = "binary" /\ t = "bool")
+BuiltinOut(t, n) == CASE n = "upper" -> "AB"
+                      [] n = "len" -> (CASE t = "str" -> "2" [] t = "arr" -> "2" [] t = "int" -> "1")
+                      [] n = "abs" -> (IF t = "int" THEN "3" ELSE "2.5")
+                      [] n = "floor" -> "2"
+                      [] n = "binary" -> "1"
 \* the canned result of function id i of type t, as it prints
 Canned(t, i) == CASE t = "str" -> "R" \o ToString(i) [] t = "arr" -> ToString(i) \o ", x" [] t = "int" -> ToString(100 + i)
                   [] t = "float" -> ToString(i) \o ".5" [] t = "bool" -> (IF i % 2 = 1 THEN "1" ELSE "0")
@@ -31,7 +38,7 @@ Has(t, n) == n \in DOMAIN reg[t]
 DoReg(t, n) == /\ reg' = IF Has(t, n) THEN reg ELSE [reg EXCEPT ![t] = [x \in DOMAIN @ \cup {n} |-> IF x = n THEN Id ELSE @[x]]]
                /\ hist' = Append(hist, [op |-> "reg", t |-> t, n |-> n, id |-> Id, ok |-> ~Has(t, n)])
                /\ UNCHANGED loaded
-CallExpect(t, n) == IF n = Builtin(t) THEN [kind |-> "out", out |-> BuiltinOut(t)]            \* a built-in shadows a custom function
+CallExpect(t, n) == IF IsBuiltin(t, n) THEN [kind |-> "out", out |-> BuiltinOut(t, n)]        \* a built-in shadows a custom function
                     ELSE IF Has(t, n) THEN [kind |-> "out", out |-> Canned(t, reg[t][n])]
                     ELSE [kind |-> "err", why |-> "unregistered", has |-> <<n, TypeName(t)>>]
 DoCall(t, n, onVar, viaTpl) ==
@@ -58,7 +65,7 @@ RegOutcome == \A k \in 1..Len(hist) : hist[k].op = "reg" =>
 \* every call sees the first registration, before and after Load, unless a built-in of that name exists
 CallOutcome == \A k \in 1..Len(hist) : hist[k].op = "call" =>
    LET first == {j \in 1..(k - 1) : hist[j].op = "reg" /\ hist[j].t = hist[k].t /\ hist[j].n = hist[k].n} IN
-   IF hist[k].n = Builtin(hist[k].t) THEN hist[k].expect.out = BuiltinOut(hist[k].t)
+   IF IsBuiltin(hist[k].t, hist[k].n) THEN hist[k].expect.out = BuiltinOut(hist[k].t, hist[k].n)
    ELSE IF first = {} THEN hist[k].expect.kind = "err"
    ELSE hist[k].expect.out = Canned(hist[k].t, CHOOSE j \in first : \A i \in first : j <= i)
 
